@@ -80,7 +80,7 @@ PROPS = {
     ),
     'C16': dict(
         title='The lexer is total, loses no text, and reads literals as written',
-        verus_units=['lexer', 'lex', 'bitstr'],
+        verus_units=['lexer', 'lex', 'bitstr', 'collections'],
         kani_groups=[],
         design_ref='DESIGN.md section 5 / C16',
         technique='Verus contracts on the real lexer (Lex::new, peek_char, take_char, skip_line, last_substr, next, next_nonws) over a character-level '
@@ -98,14 +98,16 @@ PROPS = {
                    'separators removed, radix 16 / 2 for the prefixes, 16 for any other leading zero, 10 otherwise, its value the mathematical value of those digits '
                    '(rejected exactly when there is none in the 128-bit range); a token with a `.` is the real std converts the same characters to, and a radix '
                    'prefix on a real is refused. Printing: unless elided to fit the screen, the printer of bit-strings writes `|`, characters that denote exactly '
-                   'the bits of the value, `|` - and (lemma) Lex::next reads that text back as one literal with exactly those bits.',
+                   'the bits of the value, `|` - and (lemma) Lex::next reads that text back as one literal with exactly those bits. The printer of vectors '
+                   '(`[ ` elements each followed by a blank `]`), maps (`{ ` VALUE KEY pairs in key order `}`, the order a map literal reads) and integers '
+                   '(base, prefix and case as the flags ask, decimal otherwise) has the stated shape (unit collections).',
         level_note='Assumed (dependency contracts): str slicing + chars().next() yields the character at a boundary offset, arcstr substr, char::len_utf8 (vstd); '
                    'char::to_digit(16) / is_ascii_digit / is_ascii_whitespace as their spec functions, i128::from_str_radix = the mathematical value of [sign] digits '
                    '(None when empty, a wrong digit, out of range), str::parse::<f64> = an uninterpreted function of the characters, ArcStr::from(&String) keeps the '
                    'characters; fmt::Formatter is a character sink (write_str / write_char append their argument, `{:X}` of a value < 16 appends its hex digit); '
                    'the length preconditions of the bit-literal builder (< 2^64 - 8 bits) are not carried into the lexer. '
-                   'NOT decided: print/read-back of integers (std Display), strings ({:?}), vectors and maps (recursive fmt through dyn Formatter).',
-        not_decided=['print / read-back of integers, strings, vectors and maps', 'XstrLines'],
+                   'the recursive printer call and std integer formatting are functions of (cell, flags) / (number, base, prefix, case). NOT decided: that the printed text of an integer, vector or map evaluates back to an equal value; strings ({:?}).',
+        not_decided=['read-back of printed integers, vectors and maps (shape of the printed text is decided)', 'printed strings', 'XstrLines'],
     ),
     'C18': dict(
         title='Text encodings of binary data round-trip',
